@@ -879,17 +879,17 @@ impl Drop for Archetype {
                     col.component_layout.align(),
                 )
             };
-            if cap_layout.size() > 0 {
-                // Drop components.
-                if let Some(drop) = col.drop {
-                    for i in 0..len {
-                        unsafe {
-                            let ptr = col.data.as_ptr().add(i * col.component_layout.size());
-                            drop(NonNull::new_unchecked(ptr));
-                        };
-                    }
+            // Drop components. Zero-sized components have destructors too.
+            if let Some(drop) = col.drop {
+                for i in 0..len {
+                    unsafe {
+                        let ptr = col.data.as_ptr().add(i * col.component_layout.size());
+                        drop(NonNull::new_unchecked(ptr));
+                    };
                 }
+            }
 
+            if cap_layout.size() > 0 {
                 // Free backing buffer.
                 unsafe { dealloc(col.data.as_ptr(), cap_layout) };
             }
